@@ -90,11 +90,18 @@ def breakdown(cases, dims):
 
 
 def report(ctx, prefix, failures, passing, primary, minor, describe):
-    """failures: {what: [(dims, text, replay)]}.  One violation per (what, minimal shape)."""
+    """failures: {what: [(dims, text, replay)]}.  One violation per cause: failures confined to one
+    (opcode, version) cell are reported under the cell (`<prefix>:mishandled:op=..,ver=..`, all their
+    symptoms listed), the others under `<prefix>:<symptom>:<minimal shape>`."""
     keys = []
+    cells = {}
     for what in sorted(failures):
         items = failures[what]
         fd = [d for d, _, _ in items]
+        ops, vers = {d["op"] for d in fd}, {d["ver"] for d in fd}
+        if len(ops) == 1 and len(vers) == 1 and any(p["op"] not in ops or p["ver"] not in vers for p in passing):
+            cells.setdefault((ops.pop(), vers.pop()), []).append(what)
+            continue
         shape = shape_key(fd, passing, primary, minor)
         key = "%s:%s%s" % (prefix, what, (":" + shape) if shape else "")
         d0, text, replay = items[0]
@@ -102,6 +109,20 @@ def report(ctx, prefix, failures, passing, primary, minor, describe):
                "failing_by_dimension": breakdown(fd, primary + minor), "first": replay,
                "more": [r for _, _, r in items[1:4]]}
         ctx.violation(key, "%s (%d exchanges; first: %s)" % (describe.get(what, what), len(items), text), replay=rep)
+        keys.append(key)
+    for (op, ver), whats in sorted(cells.items()):
+        key = "%s:mishandled:op=%s,ver=%s" % (prefix, op, ver)
+        n_pass = sum(1 for p in passing if p["op"] == op and p["ver"] == ver)
+        rep = {"cell": {"op": op, "ver": ver}, "passing_exchanges_in_cell": n_pass, "symptoms": {}}
+        parts = []
+        for what in whats:
+            items = failures[what]
+            parts.append("%s x%d" % (what, len(items)))
+            rep["symptoms"][what] = {"failing_exchanges": len(items), "meaning": describe.get(what, what),
+                                     "failing_by_dimension": breakdown([d for d, _, _ in items], minor),
+                                     "first_text": items[0][1], "first": items[0][2], "more": [r for _, _, r in items[1:3]]}
+        ctx.violation(key, "%s frames of version %s are not forwarded as the specification requires: %s (%d exchanges of the "
+                      "cell agree)" % (op, ver, "; ".join(parts), n_pass), replay=rep)
         keys.append(key)
     return keys
 
